@@ -181,7 +181,11 @@ func (n *lazyNode) tryAry() bool {
 
 func (n *lazyNode) equal(o *lazyNode) bool {
 	if n == nil || o == nil {
-		return n == nil && o == nil
+		// A decoded null is a nil node, a null supplied by a patch is a
+		// node without text.
+		nNull := n == nil || (n.which == eRaw && n.raw == nil)
+		oNull := o == nil || (o.which == eRaw && o.raw == nil)
+		return nNull && oNull
 	}
 
 	if n.which == eRaw {
@@ -216,14 +220,7 @@ func (n *lazyNode) equal(o *lazyNode) bool {
 				return false
 			}
 
-			if (v == nil) != (ov == nil) {
-				return false
-			}
-
-			if v == nil && ov == nil {
-				continue
-			}
-
+			// equal itself knows the spellings of null.
 			if !v.equal(ov) {
 				return false
 			}
